@@ -36,3 +36,15 @@ ssize_t getrandom(void *buf, size_t n, unsigned flags)
     sysrand_expected(sysrand_deliveries++, (uint8_t *)buf, n);
     return (ssize_t)n;
 }
+
+/* the other two interfaces the library may have been configured to use (libc probes): the same script behind getentropy() and behind syscall(SYS_getrandom) */
+#include <stdarg.h>
+#include <sys/syscall.h>
+int getentropy(void *buf, size_t n) { return getrandom(buf, n, 0) < 0 ? -1 : 0; }
+#if defined(VP_SYSRAND_SYSCALL)    /* only in the one configuration that needs it: sanitizer runtimes define syscall themselves */
+long syscall(long number, ...)
+{
+    if (number == SYS_getrandom) { va_list ap; va_start(ap, number); void *buf = va_arg(ap, void *); size_t n = va_arg(ap, size_t); va_end(ap); return (long)getrandom(buf, n, 0); }
+    errno = ENOSYS; return -1;
+}
+#endif
